@@ -73,6 +73,9 @@ func callSig(c *Call) string {
 func groupSig(gs *GroupScan) []string {
 	out := []string{fmt.Sprintf("reached=%v pods=%v nodes=%v", gs.Reached, podNames(gs.Pods), nodeNames(gs.Nodes))}
 	for _, c := range gs.Calls {
+		if c.Op == OpStatus || c.Op == OpDescribeInst {
+			continue // read-only polls: their number/order is not an action on the group
+		}
 		out = append(out, callSig(c))
 	}
 	return out
